@@ -5,6 +5,7 @@ import (
 	"fmt"
 	"net"
 	"syscall"
+	"time"
 
 	"github.com/scionproto/scion/pkg/addr"
 	"github.com/scionproto/scion/pkg/snet"
@@ -95,4 +96,17 @@ func SetDSCP(conn *net.UDPConn, dscp uint8) error {
 		return err
 	}
 	return res.err
+}
+
+// ReadTXTimestampWithID reads the transmit timestamp of the packet that the
+// socket numbered id (SOF_TIMESTAMPING_OPT_ID). Timestamps of earlier packets
+// that were not available in time when they were asked for, and only show up
+// in the error queue now, are discarded.
+func ReadTXTimestampWithID(conn *net.UDPConn, id uint32) (time.Time, uint32, error) {
+	for {
+		ts, tsID, err := ReadTXTimestamp(conn)
+		if err != nil || int32(tsID-id) >= 0 {
+			return ts, tsID, err
+		}
+	}
 }
